@@ -41,12 +41,121 @@ theorem apply_status (plus : Bool) (b : Batch) (v : Nat) (h : b.ct ≠ .noChange
     (apply plus b v).statusUpdated = true := by
   cases hct : b.ct <;> simp_all [apply, updateNginxConf] <;> (repeat' split) <;> simp
 
+/-! ### the apply transaction -/
+
+/-- exact characterisation of a nil result of the transaction, for every error class -/
+theorem applyTx_ok_iff (plus : Bool) (f : FilesOutcome) (o : Oracle) (apiOk : Bool) (v : Nat) :
+    (applyTx plus f o apiOk v).res = none ↔
+      f = .ok ∧ (reload o v).res = none ∧ (plus = true → apiOk = true) := by
+  cases f with
+  | failed c k => simp [applyTx]
+  | ok =>
+    simp only [applyTx, true_and]
+    cases hr : (reload o v).res with
+    | some e => simp
+    | none => cases plus <;> cases apiOk <;> simp
+
+/-- `Reload` is invoked exactly when `ReplaceFiles` returned nil, and then with this oracle -/
+theorem applyTx_reload (plus : Bool) (f : FilesOutcome) (o : Oracle) (apiOk : Bool) (v : Nat) :
+    (applyTx plus f o apiOk v).reload = if f = .ok then some (reload o v) else none := by
+  cases f with
+  | failed c k => simp [applyTx]
+  | ok =>
+    simp only [applyTx, if_true]
+    cases hr : (reload o v).res with
+    | some e => simp
+    | none => cases plus <;> simp
+
+/-- a files error of any class is returned as such, nothing else is touched -/
+theorem applyTx_files_failed (plus : Bool) (c : ErrClass) (k : Nat) (o : Oracle) (apiOk : Bool)
+    (v : Nat) : applyTx plus (.failed c k) o apiOk v = ⟨some (.files c), none, false⟩ := rfl
+
+theorem applyTx_fileClass (plus : Bool) (f : FilesOutcome) (o : Oracle) (apiOk : Bool) (v : Nat) :
+    ApplyErr.fileClass (applyTx plus f o apiOk v).res =
+      match f with
+      | .ok => none
+      | .failed c _ => some c := by
+  cases f with
+  | failed c k => simp [applyTx, ApplyErr.fileClass]
+  | ok =>
+    simp only [applyTx]
+    cases hr : (reload o v).res with
+    | some e => simp [ApplyErr.fileClass]
+    | none => cases plus <;> cases apiOk <;> simp [ApplyErr.fileClass]
+
+/-- the Plus API is consulted only after a successful reload -/
+theorem applyTx_apiCalled (plus : Bool) (f : FilesOutcome) (o : Oracle) (apiOk : Bool) (v : Nat) :
+    (applyTx plus f o apiOk v).apiCalled = true ↔
+      plus = true ∧ f = .ok ∧ (reload o v).res = none := by
+  cases f with
+  | failed c k => simp [applyTx]
+  | ok =>
+    simp only [applyTx]
+    cases hr : (reload o v).res with
+    | some e => simp
+    | none => cases plus <;> simp
+
+theorem isOk_iff (f : FilesOutcome) : f.isOk = true ↔ f = .ok := by
+  cases f <;> simp [FilesOutcome.isOk]
+
+theorem unc_err (plus : Bool) (b : Batch) (v : Nat) :
+    (updateNginxConf plus b v).err = true ↔
+      (b.writeOk = false ∨ (reload b.oracle v).res.isSome = true ∨ (plus = true ∧ b.apiOk = false)) := by
+  have h := applyTx_ok_iff plus b.files b.oracle b.apiOk v
+  simp only [updateNginxConf, Batch.writeOk]
+  cases hres : (applyTx plus b.files b.oracle b.apiOk v).res with
+  | none =>
+    obtain ⟨h1, h2, h3⟩ := h.1 hres
+    simp only [Option.isSome_none, Bool.false_eq_true, false_iff, not_or, not_and]
+    refine ⟨by simp [h1, FilesOutcome.isOk], by simp [h2], fun hp => by simp [h3 hp]⟩
+  | some e =>
+    simp only [Option.isSome_some, true_iff]
+    rw [hres] at h
+    simp only [reduceCtorEq, false_iff, not_and] at h
+    cases hf : b.files with
+    | failed c k => left; simp [FilesOutcome.isOk]
+    | ok =>
+      right
+      cases hr : (reload b.oracle v).res with
+      | some e' => left; simp
+      | none =>
+        right
+        have := h hf hr
+        cases plus <;> cases hb : b.apiOk <;> simp_all
+
+theorem apply_noChange (plus : Bool) (b : Batch) (v : Nat) (h : b.ct = .noChange) :
+    apply plus b v = Emit.none := by simp [apply, h]
+
+theorem apply_clusterState (plus : Bool) (b : Batch) (v : Nat) (h : b.ct = .clusterState) :
+    apply plus b v = updateNginxConf plus b v := by simp [apply, h]
+
+theorem apply_endpointsOnly_oss (b : Batch) (v : Nat) (h : b.ct = .endpointsOnly) :
+    apply false b v = updateNginxConf false b v := by simp [apply, h]
+
+theorem apply_endpointsOnly_plus (b : Batch) (v : Nat) (h : b.ct = .endpointsOnly) :
+    apply true b v = ⟨some v, false, none, none, true, !b.apiOk, true, none, none⟩ := by
+  simp [apply, h]
+
 theorem apply_reloadVersion (plus : Bool) (b : Batch) (v w : Nat)
     (h : (apply plus b v).reloadVersion = some w) :
     w = v ∧ (apply plus b v).reload = some (reload b.oracle v) ∧ b.writeOk = true ∧
       (apply plus b v).generated = true := by
+  have key : ∀ w, (updateNginxConf plus b v).reloadVersion = some w →
+      w = v ∧ (updateNginxConf plus b v).reload = some (reload b.oracle v) ∧ b.writeOk = true ∧
+        (updateNginxConf plus b v).generated = true := by
+    intro w hw
+    simp only [updateNginxConf, applyTx_reload, Batch.writeOk] at hw ⊢
+    cases hf : b.files with
+    | failed c k => simp [hf] at hw
+    | ok => simp [hf] at hw; simp [hw, FilesOutcome.isOk]
   revert h
-  cases hct : b.ct <;> simp only [apply, updateNginxConf, Emit.none] <;> (repeat' split) <;> simp_all
+  cases hct : b.ct with
+  | noChange => rw [apply_noChange plus b v hct]; simp [Emit.none]
+  | endpointsOnly =>
+    cases plus
+    · rw [apply_endpointsOnly_oss b v hct]; exact key w
+    · rw [apply_endpointsOnly_plus b v hct]; simp
+  | clusterState => rw [apply_clusterState plus b v hct]; exact key w
 
 /-- which environment faults make an apply fail, exactly -/
 theorem apply_err_iff (plus : Bool) (b : Batch) (v : Nat) (h : b.ct ≠ .noChange) :
@@ -54,17 +163,40 @@ theorem apply_err_iff (plus : Bool) (b : Batch) (v : Nat) (h : b.ct ≠ .noChang
       if plus = true ∧ b.ct = .endpointsOnly then b.apiOk = false
       else (b.writeOk = false ∨ (reload b.oracle v).res.isSome = true ∨
             (plus = true ∧ b.apiOk = false)) := by
-  cases hct : b.ct <;> cases plus <;> simp only [apply, updateNginxConf, Emit.none] <;>
-    (repeat' split) <;> simp_all
+  cases hct : b.ct with
+  | noChange => exact absurd hct h
+  | endpointsOnly =>
+    cases plus
+    · rw [apply_endpointsOnly_oss b v hct]
+      simpa using unc_err false b v
+    · rw [apply_endpointsOnly_plus b v hct]; simp
+  | clusterState =>
+    rw [apply_clusterState plus b v hct]
+    simpa using unc_err plus b v
 
 /-- a successful apply that involved a reload had a successful reload of exactly that version -/
 theorem apply_ok_reload (plus : Bool) (b : Batch) (v : Nat)
     (h1 : (apply plus b v).err = false) (h2 : plus = false ∨ b.ct = .clusterState)
     (h3 : b.ct ≠ .noChange) :
     (apply plus b v).reloadVersion = some v ∧ (reload b.oracle v).res = none := by
+  have key : (updateNginxConf plus b v).err = false →
+      (updateNginxConf plus b v).reloadVersion = some v ∧ (reload b.oracle v).res = none := by
+    intro he
+    simp only [updateNginxConf, applyTx_reload] at he ⊢
+    have hn : (applyTx plus b.files b.oracle b.apiOk v).res = none := by
+      cases hres : (applyTx plus b.files b.oracle b.apiOk v).res with
+      | none => rfl
+      | some e => rw [hres] at he; simp at he
+    obtain ⟨hf, hr, _⟩ := (applyTx_ok_iff _ _ _ _ _).1 hn
+    simp [hf, hr]
   revert h1
-  cases hct : b.ct <;> cases plus <;> simp only [apply, updateNginxConf, Emit.none] <;>
-    (repeat' split) <;> simp_all
+  cases hct : b.ct with
+  | noChange => exact absurd hct h3
+  | endpointsOnly =>
+    rcases h2 with rfl | h2
+    · rw [apply_endpointsOnly_oss b v hct]; exact key
+    · rw [hct] at h2; cases h2
+  | clusterState => rw [apply_clusterState plus b v hct]; exact key
 
 theorem hstep_version (plus : Bool) (s : H) (b : Batch) :
     (hstep plus s b).1.version = if b.ct = .noChange then s.version else s.version + 1 := by
